@@ -19,7 +19,8 @@ CLAIMS = {
             "engaged operands; storage alignment from clang's record layout; for payloads that are not trivially copyable the storage bytes "
             "are used only as a placement-new address or through a cast to T* (never copied/swapped/filled as bytes); a value assignment "
             "does not read its by-reference argument after destroying the old payload; Any: holder dereferences dominated by a "
-            "validity test, clone-on-copy, get<T> guarded by the exact-type test and otherwise throwing std::runtime_error. "
+            "validity test, clone-on-copy, copy assignment reads (and clones) its source before it releases the payload it owns "
+            "(the source may live inside that payload), get<T> guarded by the exact-type test and otherwise throwing std::runtime_error. "
             "These are necessary structural conditions of the property decided on every path; value equality of what is "
             "returned is not decided.",
             "Trusted: clang 14 front end/CFG; payload types behave as values; *this and the assignment argument are "
@@ -39,7 +40,8 @@ CLAIMS['C16'] = ('proof',
     "and no mutable static/thread-local state read by the parser is left changed on a normal or exceptional exit (the result "
     "does not depend on earlier calls); pure std::string out-parameters are written on every successful return; begin/end "
     "cursor pairs are ordered when used as ranges; whitespace is excluded in front of the delimiters of a tag head / header "
-    "(a structural part of the faithfulness clause); writes through self-allocated buffers stay inside them. Obligations = one per "
+    "(a structural part of the faithfulness clause); the backward trim of a text content removes whitespace bytes only (its "
+    "condition evaluated for every byte value, plain char signed); writes through self-allocated buffers stay inside them. Obligations = one per "
     "analysed function and clause; all must be discharged. The faithfulness clause (returned tree equals the generating "
     "tree) is a value-level property and is not decided.",
     "Trusted: clang 14 CFG; isalpha/isdigit/isspace are false at NUL; the abstract transfer functions of the rule engine "
@@ -65,7 +67,7 @@ TECH = {
             'Relies on C04 for vec min/max/anyLessThan. Not decided: rounding ("within rounding"), NaN bounds, correctness of xfmPoint itself (C06), conditioning of the affine map; clamp on inverted ranges is a precondition.'),
     'C06': ('translation validation of identity drivers: LLVM-IR value-graph normal form of both sides (real compiler does overload resolution/inlining), exact rational-function identity with sympy; AST/CFG shape rules (linear program over branch guards, dominance, interval iteration of the Newton step in the singular-value domain)',
             'Real-number semantics of float operations; non-zero denominators; sin^2+cos^2=1 and the double-angle formulas as trig facts. Not decided: '
-            'tolerance vs condition number (rounding) beyond the conditioning/orthogonal() clauses, the slerp interpolation formula, frame() (outside the IR fragment), SIMD rcp/rsqrt approximations (C07); orthogonal() assumes singular values in [1/64, 64]. '
+            'tolerance vs condition number (rounding) beyond the conditioning/orthogonal() clauses, the slerp interpolation formula, SIMD rcp/rsqrt approximations (C07; the padded SIMD configuration skips the three identities that go through them); orthogonal() assumes singular values in [1/64, 64]. '
             'AffineSpaceT::rotate(p, quaternion) cannot be instantiated at all (observation).'),
     'C07': ('LLVM-IR value-graph normal form of identity drivers + interval bound of the Newton-Raphson error polynomial; AST purity rule',
             'Real-number reading of float operations with relative rounding <= 2^-24 per operation (no under/overflow); rcpss/rsqrtss estimate error '
